@@ -347,14 +347,17 @@ func checkBreaker(t *testing.T, c cbCase) (sig, msg string) {
 				continue
 			}
 			invoked := false
+			wantInvoke := !open || time.Since(lastFail) >= c.Cooldown
 			err := cb.Call(func() error {
 				invoked = true
+				if st.D > 0 {
+					time.Sleep(st.D) // the operation takes time: the breaker opens when it has failed, i.e. when it returns
+				}
 				if st.Kind == "fail" {
 					return errTransientX
 				}
 				return nil
 			})
-			wantInvoke := !open || time.Since(lastFail) >= c.Cooldown
 			desc := fmt.Sprintf("breaker(threshold %d, cooldown %v) step %d (%s): invoked=%v err=%v; model: open=%v consecutive failures=%d since last failure %v; steps=%+v", c.Threshold, c.Cooldown, i, st.Kind, invoked, err, open, fails, time.Since(lastFail), c.Steps)
 			if invoked != wantInvoke {
 				if invoked {
@@ -404,9 +407,9 @@ func genCbCase() *rapid.Generator[cbCase] {
 		for i := 0; i < n; i++ {
 			switch rapid.IntRange(0, 5).Draw(t, "kind") {
 			case 0, 1, 2:
-				c.Steps = append(c.Steps, cbStep{Kind: "fail"})
+				c.Steps = append(c.Steps, cbStep{Kind: "fail", D: rapid.SampledFrom([]time.Duration{0, 0, 1, c.Cooldown / 2, c.Cooldown, 2 * c.Cooldown}).Draw(t, "dur")})
 			case 3:
-				c.Steps = append(c.Steps, cbStep{Kind: "ok"})
+				c.Steps = append(c.Steps, cbStep{Kind: "ok", D: rapid.SampledFrom([]time.Duration{0, 0, c.Cooldown / 2}).Draw(t, "dur")})
 			default:
 				d := rapid.SampledFrom([]time.Duration{c.Cooldown - 1, c.Cooldown, c.Cooldown + 1, c.Cooldown / 2, 1}).Draw(t, "adv")
 				if d <= 0 {
@@ -439,7 +442,7 @@ func TestC17(t *testing.T) {
 		hooked = false
 		r.Assume("jitter overlay inactive: dice unknown, only the jitter band is checked")
 	}
-	r.Rule = "(a) CalculateBackoff on generated configurations (initial 1ns-1h, cap 0-1y, multiplier 0.5-16, jitter 0-1, attempt 0-64 and huge values up to MaxInt, dice supplied through the jitter hook with extremes over-weighted) against an independent big-float computation of min(cap, initial*multiplier^n) and the exact formula with the known dice; (b) RetryWithBackoff under a virtual clock on generated scripts of outcomes (success / transient / permanent), MaxAttempts 0-6, cancellation never / before the first call / during invocation k / during wait k, optional circuit breaker, against a reference run (invocation count, result class, exact waits); (c) CircuitBreaker as a state machine (ok / fail / advance by cooldown-1ns, cooldown, cooldown+1ns) against a closed/open model; (d, simulator part) every acquisition round observed in simulated elections. Non-trivial = attempt>=1 with the cap reached or a dice extreme; scripts with >=2 invocations; breaker histories that open at least once; distinct by hash of the case."
+	r.Rule = "(a) CalculateBackoff on generated configurations (initial 1ns-1h, cap 0-1y, multiplier 0.5-16, jitter 0-1, attempt 0-64 and huge values up to MaxInt, dice supplied through the jitter hook with extremes over-weighted) against an independent big-float computation of min(cap, initial*multiplier^n) and the exact formula with the known dice; (b) RetryWithBackoff under a virtual clock on generated scripts of outcomes (success / transient / permanent), MaxAttempts 0-6, cancellation never / before the first call / during invocation k / during wait k, optional circuit breaker, against a reference run (invocation count, result class, exact waits); (c) CircuitBreaker as a state machine (ok / fail operations that take 0 .. 2 x cooldown of virtual time / advance by cooldown-1ns, cooldown, cooldown+1ns) against a closed/open model; (d, simulator part) every acquisition round observed in simulated elections. Non-trivial = attempt>=1 with the cap reached or a dice extreme; scripts with >=2 invocations; breaker histories that open at least once; distinct by hash of the case."
 	r.Assume("backoff domain: positive initial backoff, multiplier in [0.5,16], jitter in [0,1], caps up to one year (jittered value fits int64); tolerance 16ns + 1e-9 relative for float64 rounding")
 	var rp c17Replay
 	if is, err := report.LoadReplay(&rp); is {
